@@ -19,7 +19,8 @@ RULE = ("random controller projects (user tags of every kind, 0-3 programs with 
         "two thirds of the Program: / Routine: / Task: / Map: symbols carry the system-symbol types genuine controllers list (0x1068 / 0x106D / 0x1070 / 0x1069), "
         "a fifth of the module names end in Map / Cxn / _Task / Program; a redundant second open() in a quarter of the scenarios, three whole-tag reads between uploads in half and a get_plc_info() between "
         "uploads in 40 % change nothing; every fourth project holds a TIMER-shaped predefined type (70 % in the bare-name template form on firmware >= 32), "
-        "12 % of the UDTs end in unnamed pad members; after every upload tags_json equals tags minus the type classes) are uploaded through open() / get_tag_list(None | '*' | program) "
+        "12 % of the UDTs end in unnamed pad members; 2 % of the member names are words the library uses as keys of its own dicts (type_class, data_type, internal_tags ...) or begin with "
+        "one underscore, 5 % of the tag names begin with one underscore; a single-program upload with cache=True leaves exactly that program's tags; after every upload tags_json equals tags minus the type classes) are uploaded through open() / get_tag_list(None | '*' | program) "
         "under target-chosen symbol pagination {1,2,3,random,all} and template fragmentation {1..8,random,all}, firmware {16..32}; the "
         "uploaded tags / data_types / info are compared field by field with the project model, get_tag_info(tag | tag[i].member.member[j]...) "
         "must return the same definitions, every uploaded type class must decode "
@@ -72,18 +73,19 @@ def expected_tag(tag, fw):
     return e
 
 
-def diff(want, got, path=""):
-    """first difference between the documented expectation and what the driver holds (extra keys in got are ignored)"""
+def diff(want, got, path="", members=False):
+    """first difference between the documented expectation and what the driver holds (extra keys in got are ignored).
+    members: `want` is the member table of a definition (keys are MEMBER NAMES - a member may itself be called 'internal_tags')"""
     if isinstance(want, dict):
         if not isinstance(got, dict):
             return f"{path}: expected a dict, got {got!r:.80}"
         for k, v in want.items():
             if k not in got:
                 return f"{path}.{k}: missing"
-            d = diff(v, got[k], f"{path}.{k}")
+            d = diff(v, got[k], f"{path}.{k}", members=(k == "internal_tags" and not members))
             if d:
                 return d
-        if path.endswith("internal_tags") and set(got) != set(want):
+        if members and set(got) != set(want):
             return f"{path}: members {sorted(set(got) ^ set(want))[:6]} differ"
         return None
     if isinstance(want, list):
@@ -239,12 +241,19 @@ def check_upload(res, sc, drv, program_arg, keyp=""):
     # tags_json is `tags` without the type classes - the CURRENT tags, also after a re-upload that changed a definition (the tag list
     # above was compared with the controller field by field; the JSON view must say the same)
 
-    def plain(x):
-        if isinstance(x, dict):
-            return {k: plain(v) for k, v in x.items() if k not in ("type_class", "_struct_members")}
-        return x
+    def plain_info(d):   # a tag, or the entry of a structure member: its own keys minus the type classes
+        new = {k: v for k, v in d.items() if k not in ("type_class", "_struct_members")}
+        if isinstance(d.get("data_type"), dict):
+            new["data_type"] = plain_type(d["data_type"])
+        return new
+
+    def plain_type(dt):  # a structure definition; `internal_tags` is keyed by MEMBER NAME (a member may be called type_class)
+        new = {k: v for k, v in dt.items() if k not in ("type_class", "_struct_members")}
+        if isinstance(dt.get("internal_tags"), dict):
+            new["internal_tags"] = {name: plain_info(m) for name, m in dt["internal_tags"].items()}
+        return new
     res.ev()
-    want_tj = plain(drv.tags)
+    want_tj = {name: plain_info(t_) for name, t_ in drv.tags.items()}
     if tj != want_tj:
         bad = sorted(k for k in set(tj) | set(want_tj) if tj.get(k) != want_tj.get(k))
         res.violation(f"{keyp}tags_json-differs-from-tags", f"tags_json disagrees with tags for {bad[:3]!r} ({len(bad)} tags; {sc.label}): e.g. {str(tj.get(bad[0]))[:120]} vs {str(want_tj.get(bad[0]))[:120]}", wit)
@@ -409,6 +418,18 @@ def run(ctx):
                         res.violation("program-scope-list", f"get_tag_list({pn!r}) -> {gotn!r:.200}, program holds {want!r:.200}", {"config": sc.label})
                     if sc.drv.tags is not full and sc.drv.tags != full:
                         res.violation("cache-false-overwrites", "get_tag_list(cache=False) replaced the cached tag list", {"config": sc.label})
+                    # the same upload with cache=True (the default): "after get_tag_list, tags contains exactly" the tags of the scope asked
+                    # for - what an earlier upload of other scopes left in the driver is gone
+                    st2, out2 = sc.b.call("get_tag_list", sc.drv.get_tag_list, pn)
+                    note_budget(res, st2)
+                    res.ev()
+                    if st2 != "ok":
+                        res.violation("get_tag_list-raises", f"get_tag_list({pn!r}) raised {out2!r:.200}", {"config": sc.label})
+                    elif sorted(sc.drv.tags) != want:
+                        extra_ = sorted(set(sc.drv.tags) - set(want))
+                        res.violation("program-scope-cache", f"after get_tag_list({pn!r}) tags holds {len(sc.drv.tags)} entries, the program has {len(want)}; not of this program: {extra_[:4]!r}", {"config": sc.label})
+                    st2, out2 = sc.b.call("get_tag_list", sc.drv.get_tag_list, "*" if ipt else None)
+                    note_budget(res, st2)
             sc.close()
         except ScenarioDead:
             continue
